@@ -1,0 +1,21 @@
+//go:build verif
+// +build verif
+
+// Machine-checked contracts for package ast (comment-only; read by /verif/govc).
+
+package ast
+
+// A long string token [=*[ body ]=*] of level n (manual §3.1): the value is the
+// body, minus one leading newline - for every level and every body, including
+// the empty one.  (Tokens containing a carriage return go through the regexp
+// based normalisation and are not covered.)
+//@ macro lsIdx(id) = (bytes.IndexByte(id.Lit[1:], 91) + 2)
+//@ func NewLongString
+//@   prop C12 C04
+//@   arith int
+//@   requires id != nil && bytes.IndexByte(id.Lit, 13) == -1
+//@   requires len(id.Lit) >= 4 && 0 <= bytes.IndexByte(id.Lit[1:], 91) && 2*lsIdx(id) <= len(id.Lit)
+//@   modifies everything()
+//@   ensures len(id.Lit) == 2*lsIdx(id) ==> len(result.Val) == 0
+//@   ensures len(id.Lit) > 2*lsIdx(id) && id.Lit[lsIdx(id)] != 10 ==> len(result.Val) == len(id.Lit) - 2*lsIdx(id)
+//@   ensures len(id.Lit) > 2*lsIdx(id) && id.Lit[lsIdx(id)] == 10 ==> len(result.Val) == len(id.Lit) - 2*lsIdx(id) - 1
